@@ -265,6 +265,17 @@ func runWorker(spec *meta.Spec, j *job, timeout time.Duration, v interface{}, ex
 	cmd.Env = append(os.Environ(), "VERIF_JOB_FILE="+jobFile)
 	cmd.Env = append(cmd.Env, extraEnv...)
 	if spec.Race {
+		// One P: real sync.Pools (per-P) then behave deterministically; the
+		// tasks are serialised by the simulator's scheduler anyway.
+		hasGMP := false
+		for _, e := range extraEnv {
+			if strings.HasPrefix(e, "GOMAXPROCS=") {
+				hasGMP = true
+			}
+		}
+		if !hasGMP {
+			cmd.Env = append(cmd.Env, "GOMAXPROCS=1")
+		}
 		// Race reports go to a file the worker parses after every run.
 		prefix := j.Out + ".race"
 		cmd.Env = append(cmd.Env, "GORACE=log_path="+prefix+" halt_on_error=0 atexit_sleep_ms=0", "VERIF_RACE_LOG="+prefix)
@@ -777,6 +788,13 @@ func hangSite(stack string) string {
 func retriesFor(spec *meta.Spec, class string) int {
 	if spec.Engine == "dial" && (strings.Contains(class, "conn_touched_after_return") || strings.Contains(class, "watcher_goroutine_alive")) {
 		return 48
+	}
+	if spec.Engine == "dial" {
+		// On the unchanged tree every enumerated plan replays exactly (the
+		// self-test checks digests); a changed Dial may reach the select
+		// between quit and ctx.Done() with both ready inside a forced plan,
+		// and then only the class recurs.
+		return 8
 	}
 	return 0
 }
